@@ -1,13 +1,46 @@
 import Rooc.Wire
-import Rooc.Oracle
+import Rooc.WireModel
+import Rooc.Display
+import Rooc.DisplayItems
+import Rooc.DisplayOracle
+import Rooc.NumTok
 namespace Rooc.Drv.C12
-open Rooc Sexp
+open Rooc Sexp Rooc.NumTok
 
-/-- model requests for C12 (run at `Float` for the exact diff, at `Ext Rat` as oracle). -/
+/-- model requests for C12 (run at `Float` for the exact diff). -/
 def handle (α : Type) [Arith α] [Wire α] : List Sexp → Sexp
+  | [.atom "display-exp", e, toks] =>
+    match (Exp.dec e : Option (Exp α)), decToks toks with
+    | some e, some tbl => app "ok" [.str (Display.displayExp (tokStr tbl) e)]
+    | _, _ => app "err" [.atom "decode"]
+  | [.atom "display-model", m, toks] =>
+    match (Model.dec m : Option (Model α)), decToks toks with
+    | some m, some tbl => app "ok" [.str (Display.displayModel (tokStr tbl) m)]
+    | _, _ => app "err" [.atom "decode"]
+  | [.atom "display-lin", lm, toks] =>
+    match (LinModel.dec lm : Option (LinModel α)), decToks toks with
+    | some lm, some tbl =>
+      match Display.displayLin (tokStr tbl) lm with
+      | some s => app "ok" [.str s]
+      | none => app "err" [.atom "panic"]
+    | _, _ => app "err" [.atom "decode"]
   | _ => app "err" [.atom "bad-request"]
 
-/-- exact oracle: the PROPERTY evaluated on the implementation's own answer. -/
+/-- exact oracle: the PROPERTY evaluated on the implementation's own answers. -/
 def oracle : List Sexp → Sexp
+  | [.atom which, a, b, .str t1, .str t2] =>
+    if which != "same-lin" && which != "same-lin-api" then app "err" [.atom "bad-request"] else
+    match (LinModel.dec a : Option (LinModel LpOracle.Bits)), (LinModel.dec b : Option (LinModel LpOracle.Bits)) with
+    | some a, some b => DisplayOracle.sameLin (which == "same-lin-api") a b t1 t2
+    | _, _ => app "err" [.atom "decode"]
+  | [.atom "same-lin-model", m, a, b, .str _, .str _] =>
+    match (Model.dec m : Option (Model (Ext Rat))),
+          (LinModel.dec a : Option (LinModel LpOracle.Bits)), (LinModel.dec b : Option (LinModel LpOracle.Bits)) with
+    | some m, some a, some b => DisplayOracle.sameLinModel m a b
+    | _, _, _ => app "err" [.atom "decode"]
+  | [.atom "no-defect", e] =>
+    match (Exp.dec e : Option (Exp (Ext Rat))) with
+    | some e => app "ok" [.atom (toString (Display.noDefectDeep e)), .atom (toString (Display.subDivDefect e))]
+    | none => app "err" [.atom "decode"]
   | _ => app "err" [.atom "bad-request"]
 end Rooc.Drv.C12
